@@ -19,7 +19,7 @@ ASSUMPTIONS = ['reduce-only orders are submitted only against an open position; 
                'its position closes (done by the stub strategy, as the statement prescribes)',
                'money values compared with relative tolerance 1e-9; threshold decisions closer than 1e-9 relative to the '
                'threshold accept either outcome, exactly representable boundary cases are judged strictly']
-MIN_OBS = {'histories': 300, 'ops': 5000, 'eff:open': 200, 'eff:increase': 200, 'eff:reduce': 200, 'eff:close': 200,
+MIN_OBS = {'session_state_comparisons': 3000, 'session_fills': 500, 'histories': 300, 'ops': 5000, 'eff:open': 200, 'eff:increase': 200, 'eff:reduce': 200, 'eff:close': 200,
            'eff:flip': 50, 'eff:oversize_close': 50, 'rejections_agreed': 100, 'near_threshold_accepts': 50,
            'exact_boundary_cases': 50, 'cancel_round_trips': 300, 'state_comparisons': 5000}
 SYMS = ['BTC-USDT', 'ETH-USDT', 'SOL-USDT']
@@ -269,7 +269,26 @@ def _history(job):
     return res
 
 
+def _session(job):
+    import random as _r
+    from .. import session, specgen, shadow
+    rng = _r.Random(job['seed'])
+    spec = specgen.random_session(rng, minutes=rng.choice([300, 500, 800]), exch_type='futures', nsym=rng.choice([1, 1, 2]))
+    for r in spec['routes']:
+        r['script']['observe'] = 'light'
+    out = session.run_session(spec, snapshots=True)
+    syms = [r['symbol'] for r in spec['routes']]
+    viol, cnt = shadow.run_futures(out['events'], spec['config'], syms)
+    cnt['sessions'] = 1
+    for x in viol:
+        x['key'] = 'session:' + x['key']
+        x['witness']['spec'] = spec
+    return {'viol': viol, 'cnt': cnt, 'sigs': []}
+
+
 def run_job(job):
+    if job.get('kind') == 'session':
+        return _session(job)
     out = {'viol': [], 'cnt': {}, 'sigs': [], 'sample': None}
     for sub in job['batch']:
         r = _history(sub)
@@ -293,4 +312,7 @@ def make_jobs(tier, seed):
     n = 3000 if tier == 'quick' else 90000
     subs = [{'seed': rng.randrange(1 << 30), 'i': i, 'length': rng.choice([8, 15, 30, 60])} for i in range(n)]
     B = 25
-    return [{'kind': 'batch', 'batch': subs[i:i + B]} for i in range(0, n, B)]
+    jobs = [{'kind': 'batch', 'batch': subs[i:i + B]} for i in range(0, n, B)]
+    # the same shadow account inside real backtest sessions (real strategy layer, both simulators)
+    jobs += [{'kind': 'session', 'seed': rng.randrange(1 << 30)} for _ in range(120 if tier == 'quick' else 2500)]
+    return jobs
